@@ -771,6 +771,7 @@ func runConn(work, prop string) {
 			x := e.Rng.Intn(tot)
 			for _, c := range cs {
 				if x < c.w {
+					e.inflight(map[string]interface{}{"trace_so_far": r.replay(), "next": c.tag})
 					c.run()
 					e.Res.Distribution["act-"+c.tag]++
 					break
